@@ -36,7 +36,7 @@ EXPLANATION = (
     'rigid transform, decided by random interpretation in GF(2^61-1).')
 TRUSTED = ['python ast', 'AVN interpreter', 'unit quaternions / axes by construction', 'modular square root as the positive norm',
            'uninterpreted inverse-trig / comparison atoms keyed by the images of their arguments (congruence)']
-ASSUMPTIONS = ['contact-free scenes (the property\'s quantifier); joint limits absent in the instantiated models',
+ASSUMPTIONS = ['contact-free scenes (the property\'s quantifier); joint limits instantiated for the spring and positional pipelines only',
                'instantiated topologies (<= 5 links) and 1-2 steps; generalisation over model size rests on scan.py being interpreted as is',
                'actuation enters as a symbolic joint-space force on non-root dofs (actuator.to_tau is decided by C11)',
                'divergent trajectories are not a static notion and are not excluded: the identities hold for all values']
@@ -46,8 +46,9 @@ K = 'brax.kinematics'
 
 
 # ------------------------------------------------------------------------------ symbolic model
-def build(links, prefix=''):
-  """(Model, system, tau) with every per-link / per-dof parameter symbolic and named with `prefix`."""
+def build(links, prefix='', limits=False):
+  """(Model, system, tau) with every per-link / per-dof parameter symbolic and named with `prefix`;
+  limits: symbolic joint ranges on hinge / slide dofs (free dofs unlimited, as the loader does)."""
   M = refkin.Model(links, anchors_zero=False, prefix=prefix)
   M.add_inertia(prefix)
   n, nv = M.n, M.nv
@@ -66,8 +67,19 @@ def build(links, prefix=''):
                           'invweight': symarr(prefix + 'diw', (nv,)), 'solver_params': symarr(prefix + 'sp', (nv, 7))})
   sysd.f.update({'matrix_inv_iterations': 0, 'solver_iterations': 1, 'solver_maxls': 1, 'mj_model': None, 'nu': 0})
   sysd.f['actuator'] = Struct('Actuator', {})
+  if limits:
+    lo = np.array([Rat.lift(float('-inf')) if fr else sym(prefix + 'lo%d' % d) for d, fr in enumerate(free)], dtype=object)
+    hi = np.array([Rat.lift(float('inf')) if fr else sym(prefix + 'hi%d' % d) for d, fr in enumerate(free)], dtype=object)
+    sysd.f['dof'].f['limit'] = (lo, hi)
   tau = np.array([Rat.lift(0) if fr else sym(prefix + 'tau%d' % d) for d, fr in enumerate(free)], dtype=object)
   return M, sysd, tau
+
+
+def has_limits(backend):
+  """Joint limits are instantiated for the spring and positional pipelines (gate atoms decided
+  consistently in both runs); the generalized pipeline's limit rows go through the iterative
+  constraint solver, which is outside the interpreted fragment."""
+  return backend != 'generalized'
 
 
 def spans(M):
@@ -153,9 +165,9 @@ EQUIV_THOROUGH = [
 ]
 
 
-def trial(seed, body, max_tries=60):
+def trial(seed, body, max_tries=60, bool_default=None):
   for t in range(max_tries):
-    avn.field_mode(seed * 7919 + t, decide=lambda nm: 1 if nm.kind == 'any' else None)
+    avn.field_mode(seed * 7919 + t, decide=lambda nm: 1 if nm.kind == 'any' else None, bool_default=bool_default)
     try:
       return body()
     except avn.NonResidue:
@@ -174,7 +186,7 @@ def equivariance(U, rep, tier):
       found = None
       for t in range(2 if tier == 'quick' else 4):
         def body():
-          M, sysd, tau = build(links)
+          M, sysd, tau = build(links, limits=has_limits(backend))
           Gq, Gt = refkin.unit_quat('G'), symarr('Gt', (3,))
           ref, _ = simulate(U, backend, sysd, M.q, M.qd, tau, steps)
           qg, qdg = moved(M, M.q, M.qd, Gq, Gt)
@@ -184,7 +196,7 @@ def equivariance(U, rep, tier):
             if bad:
               return ('init' if k == 0 else 'step %d' % k, bad)
           return None
-        found = trial(s0 * 100 + t, body)
+        found = trial(s0 * 100 + t, body, bool_default=1 if t == 0 else None)    # trial 0: every limit gate open
         if found:
           break
       rep.check(found is None, 'R5.1', '%s pipeline: rigidly moved scene [%s]' % (backend, name),
@@ -286,7 +298,7 @@ def sibling_order(U, rep, tier):
       found = None
       for t in range(1 if tier == 'quick' else 3):
         def body():
-          M, sysd, tau = build(links)
+          M, sysd, tau = build(links, limits=has_limits(backend))
           ref, _ = simulate(U, backend, sysd, M.q, M.qd, tau, steps)
           for perm in perms:
             links2, sys2, q2, qd2, tau2 = reordered(links, sysd, M.q, M.qd, tau, perm)
@@ -297,7 +309,7 @@ def sibling_order(U, rep, tier):
                 if bad:
                   return (perm, 'init' if k == 0 else 'step %d' % k, old, bad)
           return None
-        found = trial(s0 * 100 + 50 + t, body)
+        found = trial(s0 * 100 + 50 + t, body, bool_default=1 if t == 0 else None)
         if found:
           break
       rep.check(found is None, 'R5.2', '%s pipeline: links listed in another order [%s]' % (backend, name),
@@ -325,8 +337,8 @@ def components(U, rep, tier):
       found = None
       for t in range(1 if tier == 'quick' else 3):
         def body():
-          MA, sA, tA = build(la, 'A')
-          MB, sB, tB = build(lb, 'B')
+          MA, sA, tA = build(la, 'A', limits=has_limits(backend))
+          MB, sB, tB = build(lb, 'B', limits=has_limits(backend))
           links, sAB = merged(la, sA, lb, sB)
           both, _ = simulate(U, backend, sAB, np.concatenate([MA.q, MB.q]), np.concatenate([MA.qd, MB.qd]),
                              np.concatenate([tA, tB]), steps)
@@ -338,7 +350,7 @@ def components(U, rep, tier):
                 if bad:
                   return (part, 'init' if k == 0 else 'step %d' % k, i, bad)
           return None
-        found = trial(s0 * 100 + 80 + t, body)
+        found = trial(s0 * 100 + 80 + t, body, bool_default=1 if t == 0 else None)
         if found:
           break
       rep.check(found is None, 'R5.3', '%s pipeline: [%s] merged with [%s] evolves as each alone' % (backend, na, nb),
